@@ -10,6 +10,7 @@ import (
 	"regexp"
 	"runtime"
 	"sort"
+	"strconv"
 	"strings"
 	"sync"
 	"sync/atomic"
@@ -24,14 +25,18 @@ import (
 )
 
 func TestMain(m *testing.M) {
-	ev.Note("rule", "C06: schedules as data. The build overlay generated from the working tree calls a hook before every statement of atp/client.go and atp/server.go (the yield-point table is re-derived on every run); a delay plan is a list of (point, occurrence, delay): the hook sleeps 4-10 ms the n-th time the point is reached. Real client and real RunATPServer talk over unbuffered pipes and run a session history: three serial Execute calls; two concurrent ones followed by a third; a gated step that receives a signal while running, then another call; a step-fatal error followed by a success; an error without run ID broadcast to a pending run, followed by overlapping calls; Close at the end or concurrently with the last result. Quick tier: every point that the history reaches x occurrence {1,2} x every history (exhaustive single-delay sweep); thorough tier: additionally all ordered pairs of reached points on two histories and rapid-generated plans of 1-3 delays. Oracle: every Execute returns exactly once with its own run's result, Close returns, the server returns, and no goroutine with a frame in the client remains afterwards. A call that has not returned after 2 s (200x the total delay) is only reported if the session is provably quiescent: all planned delays are over and two goroutine dumps 300 ms apart show identical parked frames; otherwise the trial is waited out (30 s) or counted as inconclusive. Non-trivial: the planned point was actually reached at the planned occurrence; distinct by (history, plan).")
+	ev.Note("rule", "C06: schedules as data. The build overlay generated from the working tree calls a hook before every statement of atp/client.go and atp/server.go (the yield-point table is re-derived on every run); a delay plan is a list of (point, occurrence, delay): the hook sleeps 4-10 ms the n-th time the point is reached. Real client and real RunATPServer talk over unbuffered pipes and run a session history: three serial Execute calls; two concurrent ones followed by a third; a gated step that receives a signal while running, then another call; a step-fatal error followed by a success; an error without run ID broadcast to a pending run (while its step is still running, and racing its result), followed by overlapping calls; Close at the end or concurrently with the last result. Quick tier: every point that the history reaches x occurrence {1,2} x every history (exhaustive single-delay sweep); thorough tier: additionally all ordered pairs of reached points on two histories and rapid-generated plans of 1-3 delays. Oracle: every Execute returns exactly once with its own run's result, Close returns, the server returns, and no goroutine with a frame in the client remains afterwards. A call that has not returned after 2 s (200x the total delay) is only reported if the session is provably quiescent: all planned delays are over and two goroutine dumps 300 ms apart show identical parked frames; otherwise the trial is waited out (30 s) or counted as inconclusive. Non-trivial: the planned point was actually reached at the planned occurrence; distinct by (history, plan).")
 	ev.RegisterReplay("trial", func(t *testing.T, raw json.RawMessage) {
 		var c Trial
 		if err := json.Unmarshal(raw, &c); err != nil {
 			t.Fatal(err)
 		}
 		loadPoints(t)
-		for i := 0; i < 20; i++ {
+		reps := 20
+		if n, err := strconv.Atoi(os.Getenv("VERIF_REPLAY_REPS")); err == nil && n > 0 {
+			reps = n
+		}
+		for i := 0; i < reps; i++ {
 			if msg, _ := runTrial(c); msg != "" {
 				t.Fatal(msg)
 			}
@@ -66,7 +71,9 @@ func loadPoints(t *testing.T) {
 	}
 }
 
-func (p point) String() string { return fmt.Sprintf("#%d %s:%d (%s, %s)", p.ID, p.File, p.Line, p.Func, strings.TrimPrefix(p.Kind, "*ast.")) }
+func (p point) String() string {
+	return fmt.Sprintf("#%d %s:%d (%s, %s)", p.ID, p.File, p.Line, p.Func, strings.TrimPrefix(p.Kind, "*ast."))
+}
 
 // Delay is one entry of a plan.
 type Delay struct {
@@ -284,7 +291,7 @@ func anyRunnable(gs []string) bool {
 }
 
 // Histories. Each returns a verdict; it must leave no call outstanding.
-var histories = []string{"serial3", "concurrent2plus1", "signal", "error_then_success", "close_races_last", "broadcast_error"}
+var histories = []string{"serial3", "concurrent2plus1", "signal", "error_then_success", "close_races_last", "broadcast_error", "broadcast_error_concurrent"}
 
 func runHistory(name string, s *session, h *hookState) verdictT {
 	wait := func(c *call) verdictT { return await(c.done, h, "Execute("+c.run+")") }
@@ -345,14 +352,47 @@ func runHistory(name string, s *session, h *hookState) verdictT {
 		if v := wait(c1); v.class != "" {
 			return v
 		}
-		c2, c3 := s.execute("f2", "success", "", nil), s.execute("f3", "success", "", nil)
+		// two calls that really overlap: f3 is issued and answered while f2's step is still running
+		c2 := s.execute("f2", "success", "gate-f2", nil)
+		if !s.gates.Wait("started:f2", 30*time.Second) {
+			return verdictT{class: "inconclusive"}
+		}
+		if v := wait(s.execute("f3", "success", "", nil)); v.class != "" {
+			return v
+		}
+		s.gates.Open("gate-f2")
 		if v := wait(c2); v.class != "" {
 			return v
 		}
-		if v := wait(c3); v.class != "" {
+		if v := wait(s.execute("f4", "success", "", nil)); v.class != "" {
 			return v
 		}
-		if v := wait(s.execute("f4", "success", "", nil)); v.class != "" {
+	case "broadcast_error_concurrent":
+		// the same broadcast, racing the victim's own result: h1's work-done and the run-less error for h0 arrive
+		// close together, in either order relative to h1's caller collecting its result; overlapping calls follow
+		c1 := s.execute("h1", "success", "", nil)
+		// h0 follows a moment later, so that h1's own result precedes the run-less error unless the plan delays h1's
+		// caller - which then finds two results delivered to its entry before it collects one
+		time.Sleep(2 * time.Millisecond)
+		c0 := s.executeStep("h0", "", "success", "", nil)
+		if v := wait(c1); v.class != "" {
+			return v
+		}
+		if v := wait(c0); v.class != "" {
+			return v
+		}
+		c2 := s.execute("h2", "success", "gate-h2", nil)
+		if !s.gates.Wait("started:h2", 30*time.Second) {
+			return verdictT{class: "inconclusive"}
+		}
+		if v := wait(s.execute("h3", "success", "", nil)); v.class != "" {
+			return v
+		}
+		s.gates.Open("gate-h2")
+		if v := wait(c2); v.class != "" {
+			return v
+		}
+		if v := wait(s.execute("h4", "success", "", nil)); v.class != "" {
 			return v
 		}
 	case "close_races_last":
@@ -375,7 +415,7 @@ func expectedOutput(run string) (string, bool) {
 	switch run {
 	case "b2":
 		return "error", true
-	case "d1", "d2", "f0":
+	case "d1", "d2", "f0", "h0":
 		return "", false
 	}
 	return "success", true
@@ -456,7 +496,7 @@ func runTrial(tr Trial) (string, string) {
 		if n := c.count.Load(); n != 1 {
 			return fmt.Sprintf("Execute(%s) returned %d times\n%s", c.run, n, head), "count"
 		}
-		if c.run == "f1" {
+		if c.run == "f1" || c.run == "h1" {
 			continue // may have been handed the broadcast error or its own result, whichever came first: both are returns
 		}
 		want, ok := expectedOutput(c.run)
@@ -591,7 +631,7 @@ func TestSingleDelaySweep(t *testing.T) {
 	if sh, _ := ev.Shard(); sh == 0 {
 		ev.Note("points_never_reached_by_the_histories", fmt.Sprintf("%d: %s", len(names), strings.Join(names, "; ")))
 	}
-	ev.Exhaustive("single-delay sweep: every reached yield point x occurrence {1,2} x 6 histories")
+	ev.Exhaustive("single-delay sweep: every reached yield point x occurrence {1,2} x 7 histories")
 }
 
 // TestPairSweep (thorough): all ordered pairs of reached points on two histories.
